@@ -2,9 +2,12 @@
 package main
 
 import (
+	"strings"
 	"fmt"
 	"math"
 
+	"github.com/pentops/j5/internal/zzverif/gbridge"
+	"github.com/pentops/j5/internal/zzverif/gj5s"
 	"github.com/pentops/j5/internal/zzverif/gpb"
 	"github.com/pentops/j5/internal/zzverif/vk"
 	"github.com/pentops/j5/lib/j5codec"
@@ -45,6 +48,11 @@ func hasKind(m *gpb.Message, k gpb.Kind, seen map[*gpb.Message]bool) bool {
 func run(r *vk.Runner) {
 	cases := gpb.SingleFieldCases()
 	cases = append(cases, gpb.PairCases()...)
+	gj5s.Silence()
+	cases = append(cases, gbridge.Cases(gbridge.Programs())...)
+	if !r.Quick() {
+		cases = append(cases, gpb.DeepCases()...)
+	}
 	for _, c := range cases {
 		if r.Stopped() {
 			return
@@ -57,6 +65,13 @@ func run(r *vk.Runner) {
 		if c.Under != nil {
 			fam = "single-field"
 			kind = c.Under.Kind.String()
+		}
+		if strings.HasPrefix(c.ID, "j5s/") {
+			fam = "j5s-compiled"
+			kind = "j5s:" + kind
+		}
+		if strings.HasPrefix(c.ID, "deep/") {
+			fam = "deep"
 		}
 		r.Family("format:" + fam)
 		var codec *j5codec.Codec
